@@ -28,6 +28,18 @@ Proof.
   exact (walks_cert_sound h h' ha strict (Fc var) (insert_cb_h_keeps_walks_b h lvl new var preds Ss names h' strict Hcb Hpre) Hc).
 Qed.
 
+Theorem cbh_col_sound_c h ha lvl new var preds Ss names strict :
+  cbh_col_of h ha lvl new var preds Ss names = 1 ->
+  forall n e e' ds,
+    (exists b p, find h n = Some b /\ n_kind b = KOrig p) -> E (Fc var) e e' ->
+    CTrace h (resolve_flat h) strict n e ds -> CTrace ha (resolve_flat ha) strict n e' ds.
+Proof.
+  unfold cbh_col_of. destruct (insert_cb_h h lvl new var preds Ss names) as [h'| |] eqn:Hcb; try discriminate.
+  destruct (walk_pre_cbh h lvl new var preds Ss names && walks_cert h h' ha) eqn:Hb; [|discriminate]. intros _.
+  apply andb_true_iff in Hb as [Hpre Hc].
+  exact (ctrace_cert_sound h h' ha strict (Fc var) (insert_cb_h_keeps_ctrace_b h lvl new var preds Ss names h' strict Hcb Hpre) Hc).
+Qed.
+
 Definition extract_col_of (h ha : hier) (lvl : name) (blocks entries : list name) (hd ex : name) (rk : Z) (rname : name) : Z :=
   match extract h lvl blocks entries hd ex rk rname with
   | XOk h' => if walk_pre_extract h lvl hd rname && walks_cert h h' ha then 1 else 0
@@ -44,6 +56,18 @@ Proof.
   destruct (walk_pre_extract h lvl hd rname && walks_cert h h' ha) eqn:Hb; [|discriminate]. intros _.
   apply andb_true_iff in Hb as [Hpre Hc].
   exact (walks_cert_sound h h' ha strict Fx (extract_keeps_walks_b hd rname h lvl blocks entries ex rk h' strict Hx Hpre) Hc).
+Qed.
+
+Theorem extract_col_sound_c h ha lvl blocks entries hd ex rk rname strict :
+  extract_col_of h ha lvl blocks entries hd ex rk rname = 1 ->
+  forall n e e' ds,
+    (exists b p, find h n = Some b /\ n_kind b = KOrig p) -> E Fx e e' ->
+    CTrace h (resolve_flat h) strict n e ds -> CTrace ha (resolve_flat ha) strict n e' ds.
+Proof.
+  unfold extract_col_of. destruct (extract h lvl blocks entries hd ex rk rname) as [h'| |] eqn:Hx; try discriminate.
+  destruct (walk_pre_extract h lvl hd rname && walks_cert h h' ha) eqn:Hb; [|discriminate]. intros _.
+  apply andb_true_iff in Hb as [Hpre Hc].
+  exact (ctrace_cert_sound h h' ha strict Fx (extract_keeps_ctrace_b hd rname h lvl blocks entries ex rk h' strict Hx Hpre) Hc).
 Qed.
 
 (* the drivers' fifth column *)
